@@ -367,3 +367,32 @@ Theorem C03_primb_oer_accepts : forall t v bs rest,
   pb_oer_dec t (bs ++ rest) = Some (v, rest).
 Proof. exact pb_oer_roundtrip_in_stream. Qed.
 Print Assumptions C03_primb_oer_accepts.
+(* ------------------------------------------------------------------ *)
+(* ENUMERATED / BIT STRING layer (Rt/PrimA.v, Rt/PrimAProofs.v; notes/design/PrimA.md):
+   the readers of the model of the C accept the STANDARD encodings (the spec_ functions) and return the value *)
+From A1 Require Import Rt.Uper Rt.Oer Rt.Ext Rt.PrimA Rt.PrimAProofs.
+
+Theorem C03_prima_enum_uper_accepts_spec : forall root ext adds z enc rest,
+  enum_ok root ext adds -> enum_table root adds = sort_z root ++ adds ->
+  spec_enum_uper root ext adds z = Some enc ->
+  enum_uper_dec root ext adds (enc ++ rest) = Some (z, rest).
+Proof. exact enum_uper_dec_accepts_spec. Qed.
+Print Assumptions C03_prima_enum_uper_accepts_spec.
+
+Theorem C03_prima_bits_uper_accepts_spec : forall s bs enc rest, scon_ok s ->
+  strip_tz bs = bs -> in_scon s (zlen bs) = true ->
+  spec_bits_uper s false bs = Some enc -> bits_uper_dec s (enc ++ rest) = Some (bs, rest).
+Proof. exact bits_uper_dec_accepts_spec. Qed.
+Print Assumptions C03_prima_bits_uper_accepts_spec.
+
+Theorem C03_prima_bits_oer_accepts_spec : forall s bs enc rest,
+  (match oer_fixed_size s with Some n => zlen bs = n | None => zlen bs + 8 <= rssize_max end) ->
+  spec_bits_oer s bs = Some enc -> bits_oer_dec s (enc ++ rest) = Some (bs, rest).
+Proof. exact bits_oer_dec_accepts_spec. Qed.
+Print Assumptions C03_prima_bits_oer_accepts_spec.
+
+Theorem C03_prima_bits_ber_contents_accepted : forall body u (bs : list bool),
+  body <> [] -> 0 <= u <= 7 -> bits_of_contents (u :: body) =
+    Some (firstn (Z.to_nat (8 * zlen body - u)) (bytes_bits body)).
+Proof. exact bits_of_contents_accepts. Qed.
+Print Assumptions C03_prima_bits_ber_contents_accepted.
